@@ -40,6 +40,7 @@ type Conn struct {
 	pos     int    // bytes delivered so far
 	End     string // "eof" (default) or "stall": what a Read sees after the last byte
 	gates   map[int]bool
+	tmoAt   map[int]bool // offsets at which the next Read fails once with a time-out (when a read deadline is set)
 
 	Out            []byte // everything the server wrote
 	WriteFailAfter int    // fail writes once this many bytes were written (-1: never)
@@ -67,6 +68,17 @@ func New(in []byte, cuts []int) *Conn {
 
 // Gate withholds the bytes from offset off on until Release(off).
 func (c *Conn) Gate(off int) { c.mu.Lock(); c.gates[off] = true; c.mu.Unlock() }
+
+// TimeoutAt makes the Read that would deliver the byte at offset off fail once with ErrTimeout, provided a read
+// deadline is set at that moment (the peer was too slow); the following Read carries on.
+func (c *Conn) TimeoutAt(off int) {
+	c.mu.Lock()
+	if c.tmoAt == nil {
+		c.tmoAt = map[int]bool{}
+	}
+	c.tmoAt[off] = true
+	c.mu.Unlock()
+}
 
 // Release opens the gate at off.
 func (c *Conn) Release(off int) {
@@ -138,6 +150,14 @@ func (c *Conn) Read(p []byte) (int, error) {
 			return 0, nil
 		}
 		if c.pos < len(c.in) {
+			if c.tmoAt[c.pos] && !c.deadline.IsZero() {
+				delete(c.tmoAt, c.pos)
+				c.mu.Unlock()
+				if c.OnTimeout != nil {
+					c.OnTimeout()
+				}
+				return 0, ErrTimeout
+			}
 			if c.gates[c.pos] {
 				if c.OnBlocked != nil {
 					// the callback may release the gate (it runs without the lock)
@@ -193,6 +213,11 @@ func (c *Conn) Read(p []byte) (int, error) {
 	}
 	// never cross a gate
 	for g := range c.gates {
+		if g > c.pos && g < c.pos+n {
+			n = g - c.pos
+		}
+	}
+	for g := range c.tmoAt {
 		if g > c.pos && g < c.pos+n {
 			n = g - c.pos
 		}
